@@ -148,6 +148,8 @@ class Canon:
             return (k, self.strterm(st, t[1]), t[2])
         if k == "utf8":
             return ("utf8", self.keyterm(t[1]))
+        if k == "substr":
+            return ("substr", self.strterm(st, t[1]), self.keylin(t[2]), self.keylin(t[3]))
         return t
 
     def keyterm(self, k):
